@@ -13,13 +13,14 @@ MANIFEST = {
 
 
 def halt_writers(ctx):
-    from props.common import field_writers
+    from props.common import field_writers, not_confined
     allowed = {"halted": {"(*cpu.CPU).halt", "(*cpu.CPU).checkInterrupts"}, "haltbug": {"(*cpu.CPU).halt", "(*cpu.CPU).next"}}
     bad = {}
     for fl, ok in allowed.items():
         ws = field_writers(ctx.prog, "cpu.CPU", fl)
-        if not ws <= ok:
-            bad[fl] = sorted(ws - ok)
+        nc = not_confined(ctx.prog, ws, ok)
+        if nc:
+            bad[fl] = nc
     return not bad, "writers of the halt state outside halt()/checkInterrupts()/next(): %s" % bad
 
 
